@@ -7,6 +7,7 @@ import (
 	"go/types"
 	"math"
 	"math/big"
+	"strings"
 
 	"golang.org/x/tools/go/ssa"
 
@@ -235,7 +236,7 @@ func (x *exec) instr(st *pstate, in ssa.Instruction) bool {
 		l := x.val(st, in.X).(*Loc)
 		x.nilCheck(st, l, in)
 		st0 := in.X.Type().Underlying().(*types.Pointer).Elem().Underlying().(*types.Struct)
-		x.set(st, in, l.extend(pathElem{Field: in.Field, T: st0.Field(in.Field).Type()}))
+		x.set(st, in, x.env.Field(l, in.Field, st0.Field(in.Field).Type()))
 	case *ssa.Field:
 		v := x.term(st, in.X)
 		si := x.p.T.StructOf(in.X.Type())
@@ -307,7 +308,7 @@ func (x *exec) alloc(st *pstate, in *ssa.Alloc) {
 	ref := x.env.Alloc(st.State)
 	if at, ok := et.Underlying().(*types.Array); ok {
 		// array objects live among the backing arrays so that they can be sliced
-		x.env.SetBacking(st.heap, at.Elem(), ref, smt.ConstArray(smt.Array(BV64, x.p.T.SortOf(at.Elem())), x.p.T.Zero(at.Elem())))
+		x.env.SetBacking(st.heap, at.Elem(), ref, x.p.T.ZeroArray(at.Elem()))
 		x.set(st, in, &Loc{Kind: LArr, Ref: ref, Idx: bv64(0), Root: at.Elem(), N: at.Len(), fresh: true})
 		return
 	}
@@ -344,6 +345,9 @@ func (x *exec) load(st *pstate, l *Loc) *smt.Term {
 func (x *exec) nilCheck(st *pstate, l *Loc, in ssa.Instruction) {
 	if l.fresh || l.global != nil || l.Kind != LRoot {
 		return
+	}
+	if l.Ref.Op == "app" && strings.HasPrefix(l.Ref.Name, "fa$") {
+		return // an embedded object: its parent was checked when the field address was taken
 	}
 	key := l.Ref.String()
 	if st.checked[key] {
@@ -541,7 +545,15 @@ func (x *exec) ghostAlloc(st *pstate, n *smt.Term) {
 	st.heap["allocated"] = smt.BVAdd(cur, n)
 }
 
-func sizeOf(t types.Type) int64 {
+func sizeOf(t types.Type) (n int64) {
+	defer func() {
+		if recover() != nil {
+			n = 8 // type parameters and other types without a static size
+		}
+	}()
+	if _, ok := t.(*types.TypeParam); ok {
+		return 8
+	}
 	return types.SizesFor("gc", "amd64").Sizeof(t)
 }
 
@@ -741,7 +753,7 @@ func (x *exec) makeSlice(st *pstate, in *ssa.MakeSlice) Val {
 	x.check(st, ob+".len", "make", smt.BVUle(ln, maxLen), in.Pos(), "makeslice: len out of range")
 	x.check(st, ob+".cap", "make", smt.And(smt.BVUle(ln, cp), smt.BVUle(cp, maxLen)), in.Pos(), "makeslice: cap out of range")
 	ref := x.env.Alloc(st.State)
-	x.env.SetBacking(st.heap, et, ref, smt.ConstArray(smt.Array(BV64, x.p.T.SortOf(et)), x.p.T.Zero(et)))
+	x.env.SetBacking(st.heap, et, ref, x.p.T.ZeroArray(et))
 	x.ghostAlloc(st, smt.BVMul(cp, bv64(sizeOf(et))))
 	return MkSlice(ref, bv64(0), ln, cp)
 }
@@ -778,6 +790,13 @@ func (x *exec) doReturn(st *pstate, in *ssa.Return) {
 		}
 	}
 	x.monitorExit(st, in)
+	if !mayAllocate(x.c) && !x.c.C.Trusted {
+		cur := x.env.heapVar(st.heap, "allocated", BV64)
+		old := x.env.heapVar(x.old, "allocated", BV64)
+		if cur != old {
+			x.emit(st, "noalloc", "post", smt.Eq(cur, old), in.Pos(), "function without `mayalloc` performs no counted allocation (make, string conversion)")
+		}
+	}
 	for i, e := range x.c.C.Ensures {
 		ev := x.evalAt(st, sc)
 		ev.Pos = e.Pos
